@@ -6,21 +6,11 @@ import (
 	"bytes"
 	"context"
 	"errors"
+	"io"
 	"os"
-)
 
-func verifC04Key(i int, long int) []byte {
-	// key i: length i+1 (or `long` for key 0 when long >= 0), first byte i+1, rest zero
-	n := i + 1
-	if i == 0 && long >= 0 {
-		n = long
-	}
-	k := make([]byte, n)
-	if n > 0 {
-		k[0] = byte(i + 1)
-	}
-	return k
-}
+	"github.com/rpcpool/yellowstone-faithful/indexmeta"
+)
 
 // verifC04Attempts is the attempt bound the registry rewrites mineAttempts to.
 const verifC04Attempts = 2
@@ -50,7 +40,10 @@ func verifC04Build(path string, declared uint, vs int, keys [][]byte, vals [][]b
 	defer b.Close()
 	switch meta {
 	case 1:
+		// SetKind overwrites: exactly one kind entry, the last one
+		verifAssert(b.SetKind([]byte("old-kind")) == nil, "C04.seal: SetKind failed")
 		verifAssert(b.SetKind([]byte("kind-x")) == nil, "C04.seal: SetKind failed")
+		verifAssert(b.Metadata().Count(indexmeta.MetadataKey_Kind) == 1, "C04.seal: SetKind twice leaves more than one kind entry")
 	case 2:
 		verifAssert(b.Metadata().Add([]byte("a"), []byte{1, 2, 3}) == nil, "C04.seal: Metadata.Add failed")
 		verifAssert(b.SetKind([]byte("k")) == nil, "C04.seal: SetKind failed")
@@ -86,14 +79,28 @@ func VerifC04Seal() {
 	}
 	vs := sizes[verifChoice("valueSize", len(sizes))]
 	decls := []uint{1, 10000, 10001, 20000}
+	if verifParam("manybuckets", 0) == 1 {
+		decls = []uint{20001, 50000, 60000, 60001} // 3, 5, 6, 7 buckets
+	}
 	declared := decls[verifChoice("declared", len(decls))]
+	if verifParam("manybuckets", 0) == 1 {
+		verifC04PickBuckets = uint64((declared + 9999) / 10000) // bucket of each key chosen explicitly
+	}
 	meta := verifChoice("meta", 3)
 	dup := verifChoice("duplicate", 2) == 1
+	if verifParam("fewshapes", 0) == 1 {
+		// reader-side obligations: the builder-side shapes are covered by C04.seal
+		verifAssume(!dup && declared != 10000 && declared != 20000 && meta == 0 && vs == sizes[len(sizes)-1])
+	}
 
 	keys := make([][]byte, k)
 	vals := make([][]byte, k)
+	symkeys := verifParam("symkeys", 0) == 1
 	for i := range keys {
 		keys[i] = verifC04Key(i, -1)
+		if symkeys {
+			keys[i] = verifBytes("key", i+1) // arbitrary content; keys differ by length
+		}
 		vals[i] = verifBytes("value", vs)
 	}
 	if dup {
@@ -133,9 +140,23 @@ func VerifC04Seal() {
 	img := verifMemFileBytes(p1)
 	verifAssert(bytes.Equal(img, verifMemFileBytes(p2)), "C04.seal: sealed files differ for the same inserts")
 
+	// reader side: 0 = *os.File, 1 = *os.File with Prefetch(true) (what the server does),
+	// 2 = Prefetch(true) over a ReaderAt that reports io.EOF together with a read that ends
+	// exactly at the end of the data (allowed by the io.ReaderAt contract; bytes.Reader-like)
+	readerMode := 0
+	if verifParam("readers", 0) == 1 {
+		readerMode = verifChoice("reader", 3)
+	}
 	f, err := os.Open(p1)
 	verifAssert(err == nil, "C04.seal: cannot reopen index")
-	db, err := Open(f)
+	var stream io.ReaderAt = f
+	if readerMode == 2 {
+		stream = &verifC04EOFReader{data: img}
+	}
+	db, err := Open(stream)
+	if err == nil && readerMode >= 1 {
+		db.Prefetch(true)
+	}
 	verifAssert(err == nil, "C04.seal: Open failed on a freshly sealed index")
 	verifAssert(db.Header.ValueSize == uint64(vs), "C04.seal: value size not preserved in header")
 	verifAssert(db.Header.NumBuckets == uint32((declared+9999)/10000), "C04.seal: bucket count")
@@ -153,6 +174,49 @@ func VerifC04Seal() {
 		verifAssert(len(got) == vs, "C04.seal: value length")
 		verifAssert(bytes.Equal(got, vals[i]), "C04.seal: inserted key found with another value")
 	}
+	// a key that was never inserted: ErrNotFound, unless it shares bucket and masked hash with
+	// an inserted key (the index stores no keys), in which case that key's value is returned
+	if verifParam("absent", 0) == 1 {
+		absent := make([]byte, len(keys)+2)
+		absent[0] = 0xee
+		bkt, err := db.LookupBucket(absent)
+		verifAssert(err == nil, "C04.seal: LookupBucket failed for an absent key")
+		got, err := db.Lookup(absent)
+		h := &Header{NumBuckets: db.Header.NumBuckets}
+		var alias, aliasOK uint64
+		for i := range keys {
+			same := verifIteU64(h.BucketHash(keys[i]) == h.BucketHash(absent), 1, 0) &
+				verifIteU64(EntryHash64(bkt.HashDomain, keys[i])&0xffffff == EntryHash64(bkt.HashDomain, absent)&0xffffff, 1, 0)
+			alias |= same
+			aliasOK |= same & verifIteU64(bytes.Equal(got, vals[i]), 1, 0)
+		}
+		if err != nil {
+			verifAssert(errors.Is(err, ErrNotFound), "C04.seal: absent key fails with an error other than ErrNotFound")
+			verifAssert(alias == 0, "C04.seal: a key aliasing an inserted key (same bucket, same masked hash) is reported not found")
+			verifReach("absent-notfound")
+		} else {
+			verifAssert(alias == 1 && aliasOK == 1, "C04.seal: absent key found with a value that belongs to no aliasing inserted key")
+			verifReach("absent-alias")
+		}
+	}
 	verifReach("sealed")
 	verifReach("end")
+}
+
+// verifC04EOFReader is an io.ReaderAt over a byte slice that returns io.EOF together with
+// the data whenever a read ends exactly at (or beyond) the end of the data.
+type verifC04EOFReader struct{ data []byte }
+
+func (r *verifC04EOFReader) ReadAt(p []byte, off int64) (int, error) {
+	if off < 0 {
+		return 0, errors.New("negative offset")
+	}
+	if off >= int64(len(r.data)) {
+		return 0, io.EOF
+	}
+	n := copy(p, r.data[off:])
+	if off+int64(n) >= int64(len(r.data)) {
+		return n, io.EOF
+	}
+	return n, nil
 }
